@@ -100,6 +100,10 @@ pub fn scenario_strategy() -> BoxedStrategy<Scenario> {
                 1 => { let with_sale = off % 3 != 0; let b = Benefit { kind: "ESPP".into(), sym: sym.clone(), date, shares, fmv: fmv_s, sold: if with_sale { Some(sold) } else { None }, sale_price: sp_s.clone(), fee: fee_s, note: "ESPP".into(), sell_note: "sell-to-cover".into() }; files.push((format!("espp_{bi}.txt"), espp_text(&b))); benefits.push(b); }
                 _ => {
                     let n = 1 + (off as usize % 3);
+                    // the confirmation reports ONE consolidated 'Shares Sold' figure for all its grants: in half of the multi-grant
+                    // exercises it exceeds what the last grant alone exercised
+                    let total: u32 = (0..n as u32).map(|g| shares + g).sum();
+                    let sold = if n > 1 && (off / 3) % 2 == 0 { (sold + shares * (n as u32 - 1)).min(total - 1) } else { sold };
                     let mut gs = vec![];
                     for g in 0..n { gs.push(Benefit { kind: "ESO".into(), sym: sym.clone(), date, shares: shares + g as u32, fmv: format!("{}.{:02}", fmv / 100 + g as i64, fmv % 100), sold: if g + 1 == n { Some(sold) } else { None }, sale_price: format!("{}.{:02}", sp / 100, sp % 100), fee: format!("{}.{:02}", fee / 100 + g as i64, fee % 100), note: format!("Option Grant {}", 1000 + bi * 10 + g), sell_note: "Same-Day Sale".into() }); }
                     files.push((format!("eso_{bi}.txt"), eso_text(&gs)));
@@ -314,13 +318,14 @@ fn check(sc: &Scenario, obs: &mut Obs) -> Verdict {
     if counts.values().any(|c| *c >= 2) { obs.nt("equal-share-counts-among-trades"); }
     if sc.trades.iter().enumerate().any(|(i, a)| sc.trades.iter().skip(i + 1).any(|b| a.sym == b.sym && a.td == b.td && a.sd == b.sd && a.shares == b.shares && a.price == b.price && a.commission == b.commission && a.fee == b.fee)) { obs.class("two-identical-confirmations"); }
     for b in &sc.benefits { obs.class(format!("benefit:{}", b.kind)); }
+    if sc.benefits.iter().any(|b| b.kind == "ESO" && b.sold.map(|s| s > b.shares).unwrap_or(false)) { obs.class("option-exercise-selling-more-than-its-last-grant"); }
     if rows.iter().any(|r| r[cm].ends_with("(manual trade)")) { obs.class("manual-trades"); }
     if err.contains("varrying dates") { obs.class("warning:varying-dates"); }
     Verdict::Pass
 }
 
 pub fn def() -> PropDef {
-    let mut d = PropDef::new("C19", "scenario-first generation: 1-4 benefit confirmations (RSU; ESPP with or without sell-to-cover; option exercise with 1-3 grants) on 1-2 symbols dated within 12 days of each other, each sold-share count split into 1-3 trades 0-5 days later, in even or uneven fills, plus 0-4 manual sales (equal share counts, up to day 15; a third of them come as a pair rivalling a benefit's sell-to-cover: same window, shares adding up to its sold shares, prices near its stated price), rendered into the text layouts of the repository's fixtures (benefit confirmations in two whitespace styles; pre-2023 multi-trade and post-2023 single-trade confirmations) as .txt files with shuffled names, run through run_with_args. Validity predicate over the output CSV: one Buy per benefit (shares, FMV, date, note); every '(manual trade)' row equals a distinct input trade; the remaining trades can be partitioned (exact search) into one group per sell-to-cover row (same security, within [benefit date, +5 days], shares summing to the sold shares, row dated as a trade of the group); where a benefit's choice is not entangled with another benefit's (no other sold benefit of the same security within 5 days) the group taken must be the candidate set whose share-weighted average price is closest to the stated sale price (all subsets enumerated); rows ordered by settlement date; every row accepted by acb. The tool's own 'no trades matching' / 'unable to decide' errors are allowed (an error, not a guess) and counted. Non-trivial = >= 2 benefits whose 5-day windows overlap, or equal share counts among the trades, or >= 2 rival trade sets for one sell-to-cover, or an error outcome. Distinct = distinct case content.");
+    let mut d = PropDef::new("C19", "scenario-first generation: 1-4 benefit confirmations (RSU; ESPP with or without sell-to-cover; option exercise with 1-3 grants and one consolidated sale that may exceed the last grant) on 1-2 symbols dated within 12 days of each other, each sold-share count split into 1-3 trades 0-5 days later, in even or uneven fills, plus 0-4 manual sales (equal share counts, up to day 15; a third of them come as a pair rivalling a benefit's sell-to-cover: same window, shares adding up to its sold shares, prices near its stated price), rendered into the text layouts of the repository's fixtures (benefit confirmations in two whitespace styles; pre-2023 multi-trade and post-2023 single-trade confirmations) as .txt files with shuffled names, run through run_with_args. Validity predicate over the output CSV: one Buy per benefit (shares, FMV, date, note); every '(manual trade)' row equals a distinct input trade; the remaining trades can be partitioned (exact search) into one group per sell-to-cover row (same security, within [benefit date, +5 days], shares summing to the sold shares, row dated as a trade of the group); where a benefit's choice is not entangled with another benefit's (no other sold benefit of the same security within 5 days) the group taken must be the candidate set whose share-weighted average price is closest to the stated sale price (all subsets enumerated); rows ordered by settlement date; every row accepted by acb. The tool's own 'no trades matching' / 'unable to decide' errors are allowed (an error, not a guess) and counted. Non-trivial = >= 2 benefits whose 5-day windows overlap, or equal share counts among the trades, or >= 2 rival trade sets for one sell-to-cover, or an error outcome. Distinct = distinct case content.");
     d.assumptions = vec!["text layouts are those of the repository's fixtures; real PDF extraction variance is not modelled"];
     d.subs.push(Box::new(Sub::<Scenario> { name: "scenario", cases_quick: 6_000, cases_thorough: 300_000, strategy: Box::new(|_| scenario_strategy()), to_json: Scenario::to_json, from_json: Scenario::from_json, check }));
     d
